@@ -660,7 +660,7 @@ func (x *Exec) heapHavoc(st *State, name, sort string) (string, string) {
 
 // nilMapAxiom: the nil map (id 0) has no keys and length 0, in every version of a map family's arrays.
 func (x *Exec) nilMapAxiom(name, sort, sym string) string {
-	if !strings.HasPrefix(name, "map_") {
+	if !strings.HasPrefix(name, "map_") || strings.Contains(name, ".val") {
 		return ""
 	}
 	if strings.HasSuffix(name, ".has") {
